@@ -351,7 +351,9 @@ pub fn run(args: &[String]) {
         let healthy = json!({"k": "GenOk", "more": false, "oneway": false, "upgrade": false, "script": []});
         let c = concretise(&healthy, 1, "after", 0);
         let obs = run_socket(&sock_addr, &slog, &[c.wire()], None, "", None);
-        let want = json!({"parameters": {"pong": c.tok}});
+        // the reply echoes the value the request carried (the token inside a string with blanks)
+        let sent: Value = serde_json::from_slice(&c.bytes).unwrap_or(Value::Null);
+        let want = json!({"parameters": {"pong": sent["parameters"]["ping"]}});
         let (msgs, _) = split_nul(&obs.out);
         if msgs.len() != 1 || serde_json::from_slice::<Value>(&msgs[0]).ok() != Some(want) {
             failures.lock().unwrap().push((Failure { case: 0, variant: "later-connection".into(), detail: format!("a later healthy connection got {:?}", lossy(&obs.out)) }, String::new(), json!({})));
